@@ -36,12 +36,13 @@ type Case struct {
 	Tag      string
 	Pair     *Case // differential partner: same documents are executed against it too
 	Docs     []docgen.Doc
-	NoAuto   bool    // only the explicit Docs
-	Witness  string  // pinned canonical witness of this recorded finding: a disagreement on it is that finding
-	Cwd      string  // working directory of the generator run, relative to the program directory
-	AbsInput bool    // pass the root file by absolute path
-	Input    string  // spelling of the root file on the command line (relative to Cwd), when it is not the plain path
-	Group    []*Case // further schema files passed to the SAME generator invocation (same package); each has its own root type and documents
+	NoAuto   bool     // only the explicit Docs
+	Witness  string   // pinned canonical witness of this recorded finding: a disagreement on it is that finding
+	Cwd      string   // working directory of the generator run, relative to the program directory
+	AbsInput bool     // pass the root file by absolute path
+	Input    string   // spelling of the root file on the command line (relative to Cwd), when it is not the plain path
+	SubPkgs  []string // further Go packages of the run (batch.Program.SubNames); Args map ids to them with {{PKG}} / {{OUT}}
+	Group    []*Case  // further schema files passed to the SAME generator invocation (same package); each has its own root type and documents
 
 	prog *batch.Program
 	idx  int
@@ -233,35 +234,8 @@ func Run(cfg *Config) (*Report, error) {
 			i := next
 			next++
 			c.idx = i
-			rf := c.RootFile
-			if rf == "" {
-				rf = "root.json"
-			}
-			var data []byte
-			if c.YAML {
-				data = sg.ToYAML(c.Root.ToJSON(), sg.YAMLBlock)
-			} else {
-				data = jsonx.MarshalIndent(c.Root.ToJSON())
-			}
-			in := rf
-			if c.Cwd != "" {
-				if rel, err := filepath.Rel(c.Cwd, rf); err == nil {
-					in = rel
-				}
-			}
-			p := &batch.Program{ID: fmt.Sprintf("p%06d", i), Files: append([]batch.File{{Path: rf, Data: data}}, c.Extra...), Args: c.Args, Inputs: []string{in}, Cwd: c.Cwd, Meta: c}
-			if c.AbsInput {
-				p.Inputs = []string{filepath.Join(env.St.Root, "progs", p.ID, rf)}
-			}
-			if c.Input != "" {
-				p.Inputs = []string{c.Input}
-			}
+			p := NewProgram(env, c, fmt.Sprintf("p%06d", i))
 			for gi, gc := range c.Group {
-				if gc.RootFile == "" {
-					gc.RootFile = fmt.Sprintf("group%d.json", gi)
-				}
-				p.Files = append(p.Files, batch.File{Path: gc.RootFile, Data: jsonx.MarshalIndent(gc.Root.ToJSON())})
-				p.Inputs = append(p.Inputs, gc.RootFile)
 				gc.prog = p
 				gc.idx = i*100 + gi + 1
 			}
@@ -313,6 +287,16 @@ func Run(cfg *Config) (*Report, error) {
 				continue
 			}
 			if !p.Usable() {
+				if os.Getenv("VERIF_DEBUG") != "" && reStratum.MatchString(c.Sig) {
+					fmt.Fprintf(os.Stderr, "DEBUG unusable %s: %s\n", c.Sig, p.Report.Summary())
+					for _, sb := range p.Subs {
+						if sb.Report != nil {
+							fmt.Fprintf(os.Stderr, "DEBUG   sub %s (%d bytes): %s\n", sb.Name, len(sb.Src), sb.Report.Summary())
+						} else {
+							fmt.Fprintf(os.Stderr, "DEBUG   sub %s (%d bytes): not checked\n", sb.Name, len(sb.Src))
+						}
+					}
+				}
 				rep.CompileFail[classify(p.Report.Summary())]++
 				if len(rep.GenFailEx) < 10 {
 					rep.GenFailEx = append(rep.GenFailEx, p.Report.Summary()+" :: "+string(jsonx.Marshal(c.Root.ToJSON())))
@@ -337,6 +321,41 @@ func Run(cfg *Config) (*Report, error) {
 	}
 	rep.Wall = time.Since(t0)
 	return rep, nil
+}
+
+// NewProgram lays out the generator invocation of a case (root file, extra files, group members, options).
+func NewProgram(env *batch.Env, c *Case, id string) *batch.Program {
+	rf := c.RootFile
+	if rf == "" {
+		rf = "root.json"
+	}
+	var data []byte
+	if c.YAML {
+		data = sg.ToYAML(c.Root.ToJSON(), sg.YAMLBlock)
+	} else {
+		data = jsonx.MarshalIndent(c.Root.ToJSON())
+	}
+	in := rf
+	if c.Cwd != "" {
+		if rel, err := filepath.Rel(c.Cwd, rf); err == nil {
+			in = rel
+		}
+	}
+	p := &batch.Program{ID: id, Files: append([]batch.File{{Path: rf, Data: data}}, c.Extra...), Args: c.Args, Inputs: []string{in}, Cwd: c.Cwd, Meta: c, SubNames: c.SubPkgs}
+	if c.AbsInput {
+		p.Inputs = []string{filepath.Join(env.St.Root, "progs", p.ID, rf)}
+	}
+	if c.Input != "" {
+		p.Inputs = []string{c.Input}
+	}
+	for gi, gc := range c.Group {
+		if gc.RootFile == "" {
+			gc.RootFile = fmt.Sprintf("group%d.json", gi)
+		}
+		p.Files = append(p.Files, batch.File{Path: gc.RootFile, Data: jsonx.MarshalIndent(gc.Root.ToJSON())})
+		p.Inputs = append(p.Inputs, gc.RootFile)
+	}
+	return p
 }
 
 // rootTypeOf derives the root type name the tool gives to the case's root file.
